@@ -20,6 +20,10 @@ def strNode (s : Bytes) : Outcome PTree :=
   | .err e => .err e
   | .panic w => .panic w
 
+/-- a bare literal: `true` / `false` (`addBool`) or number text -/
+def bareNode (t : Bytes) : PTree :=
+  if t = ascii "true" then .bool true else if t = ascii "false" then .bool false else .num t
+
 /-- first failure in document order wins -/
 def consMember (r : Outcome (Option (Bytes × Bytes × PTree))) (rest : Outcome PMembers) :
     Outcome PMembers :=
@@ -168,7 +172,7 @@ def encValue (env : Env) (O : Oracle) : Nat → Field → PVal → Outcome PTree
     | .scalar k =>
       match encodeScalar O k v with
       | .ok (.quoted s) => strNode s
-      | .ok (.bare t) => .ok (.num t)
+      | .ok (.bare t) => .ok (bareNode t)
       | .err e => .err e
       | .panic w => .panic w
     | .enum ref =>
@@ -211,22 +215,23 @@ def encValue (env : Env) (O : Oracle) : Nat → Field → PVal → Outcome PTree
       | _, _ => .err "map"
     | .any _ =>
       -- `GetJ5Any`: (typeName, J5Json, Proto) of either flavour
-      let parts : Option (Bytes × Bytes × Bytes × InnerKind × String × PVal) :=
+      -- (typeName, J5Json, `Proto != nil`, …); a pb Any's `Proto` is never nil (691a6dd)
+      let parts : Option (Bytes × Bytes × Bool × InnerKind × String × PVal) :=
         match v with
-        | .anyJ5 tn proto j5 ik iroot inner => some (tn, j5, proto, ik, iroot, inner)
-        | .anyPb url value ik iroot inner => some (trimPrefix url anyPrefix, [], value, ik, iroot, inner)
+        | .anyJ5 tn proto j5 ik iroot inner => some (tn, j5, !proto.isEmpty, ik, iroot, inner)
+        | .anyPb url _ ik iroot inner => some (trimPrefix url anyPrefix, [], true, ik, iroot, inner)
         | _ => none
       match parts with
       | none => .err "any"
-      | some (tn, j5, proto, ik, iroot, inner) =>
+      | some (tn, j5, hasProto, ik, iroot, inner) =>
         let jsonData : Outcome PTree :=
           if !j5.isEmpty then .ok (.raw j5)
-          else if !proto.isEmpty then
+          else if hasProto then
             match ik with
             | .none => .err "resolver: not found"
             | .bad => .err "proto.Unmarshal"
             | .inn => encRoot env O f iroot inner
-          else .ok (.raw [])
+          else .err "any has neither j5_json nor proto content"
         match jsonData with
         | .ok data =>
           match appendString typeKey, strNode tn, appendString valueKey with
